@@ -40,6 +40,8 @@ WRAP = [
 class FakeClock:
     """Replaces datetime.datetime inside formulas.functions.date."""
     current = datetime.datetime(2021, 3, 4, 5, 6, 7)
+    tick = None          # a timedelta: the clock advances by it at every reading
+    reads = []
 
     def __init__(self, real):
         self.real = real
@@ -81,6 +83,11 @@ def install_clock():
         @classmethod
         def now(cls, tz=None):
             c = FakeClock.current
+            if FakeClock.tick is not None:
+                # a clock that moves while the formula is evaluated: every reading is later
+                FakeClock.reads.append(c)
+                FakeClock.current = c + FakeClock.tick
+                return cls(c.year, c.month, c.day, c.hour, c.minute, c.second, c.microsecond)
             return cls(c.year, c.month, c.day, c.hour, c.minute, c.second)
     mod.datetime = dt
     import sys as _sys
@@ -247,6 +254,61 @@ def _model_shard(items):
     return res
 
 
+def serial_of(t):
+    """Excel serial (with fraction) of a datetime after 1900-03-01."""
+    base = datetime.datetime(1899, 12, 30)
+    d = t - base
+    return d.days + (d.seconds + d.microseconds / 1e6) / 86400.0
+
+
+def moving_clock_cases():
+    """NOW / TODAY under a clock that advances at every reading, also across midnight:
+    the value must lie between the first and the last reading of its own evaluation."""
+    f = impl.F()
+    install_clock()
+    out = []
+    starts = [datetime.datetime(2021, 3, 4, 12, 0, 0), datetime.datetime(2021, 3, 4, 23, 59, 59, 999000),
+              datetime.datetime(2021, 12, 31, 23, 59, 59, 999500), datetime.datetime(2021, 3, 5, 0, 0, 0, 1000)]
+    texts = ['=NOW()', '=NOW()+0', '=IF(TRUE,NOW(),0)', '=SUM(0,NOW())', '=MAX(NOW(),1)', '=TODAY()',
+             '=TODAY()+0']
+    try:
+        for t0 in starts:
+            for text in texts:
+                for way in ('compile', 'model'):
+                    FakeClock.tick = None
+                    if way == 'compile':
+                        fn_ = f.Parser().ast(text)[1].compile()
+                        run = fn_
+                    else:
+                        m = f.ExcelModel().from_dict({'A1': text, 'B1': '=A1+0'})
+                        run = lambda m=m: m.calculate()['A1']
+                    FakeClock.current, FakeClock.tick, FakeClock.reads = t0, datetime.timedelta(milliseconds=2), []
+                    try:
+                        v = scalar(run())
+                    except BaseException as ex:  # noqa
+                        if isinstance(ex, (KeyboardInterrupt, SystemExit)):
+                            raise
+                        out.append((text, way, str(t0), 'raises %s' % type(ex).__name__))
+                        continue
+                    reads = list(FakeClock.reads)
+                    FakeClock.tick = None
+                    if v.get('k') != 'f' or not reads:
+                        out.append((text, way, str(t0), 'no number / no clock reading: %s' % V.show(v)))
+                        continue
+                    lo, hi = serial_of(reads[0]), serial_of(reads[-1])
+                    x = v['x']
+                    if 'TODAY' in text:
+                        ok = int(lo) <= x <= int(hi)
+                    else:
+                        ok = lo - 1.5 / 86400 <= x <= hi + 1.5 / 86400
+                    out.append((text, way, str(t0), None if ok else
+                                'value %r outside the readings of its evaluation [%r, %r] (%d readings)'
+                                % (x, lo, hi, len(reads))))
+    finally:
+        FakeClock.tick = None
+    return out
+
+
 def _bounds_shard(items):
     """RANDBETWEEN(bottom, top) drawn repeatedly: every value in the allowed set of
     RandBetween.tla (or #NUM! when it is empty), and not always the same one."""
@@ -295,6 +357,15 @@ def main():
     thorough = tier() == 'thorough'
     r = run_tlc('Volatile', 'Volatile.cfg')
     rep.add_tlc(r, 'Volatile: every way of obtaining an object x uses; NeverFrozen OncePerEpoch')
+    # ---- a clock that moves during the evaluation ---------------------------------------
+    for text, way, t0, bad in moving_clock_cases():
+        rep.count()
+        rep.distinct(('mc', text, way, t0))
+        if bad:
+            rep.violation({'kind': 'moving-clock', 'text': text, 'way': way, 'start': t0},
+                          {'formula': text, 'way': way, 'clock_starts_at': t0, 'problem': bad,
+                           'how': 'the clock of formulas.functions.date advances 2 ms at every '
+                                  'reading; one evaluation; the value against its own readings'})
     # ---- RANDBETWEEN: an integer within its bounds ----------------------------------
     from ..tlc import parse_obl
     rb = run_tlc('RandBetween', 'RandBetween.cfg')
